@@ -2316,7 +2316,15 @@ class WBEMConnection:  # pylint: disable=too-many-instance-attributes
                             for v in value]
                 if isinstance(value, str):
                     return tp.unpack_boolean(value)
-            return cimvalue(value, type_)
+            try:
+                return cimvalue(value, type_)
+            except (ValueError, TypeError) as exc:
+                # Invalid value for the type, or invalid type
+                raise CIMXMLParseError(
+                    _format("Cannot convert value {0!A} of RETURNVALUE or "
+                            "PARAMVALUE element to CIM type {1!A}: {2}",
+                            value, type_, exc),
+                    conn_id=self.conn_id)
 
         # Convert optional RETURNVALUE into a Python object
         returnvalue = None
@@ -2324,7 +2332,7 @@ class WBEMConnection:  # pylint: disable=too-many-instance-attributes
         if tup_tree and tup_tree[0][0] == 'RETURNVALUE':
 
             returnvalue = cimxml_value(tup_tree[0][2],
-                                       tup_tree[0][1]['PARAMTYPE'])
+                                       tup_tree[0][1].get('PARAMTYPE', None))
             tup_tree = tup_tree[1:]
 
         # Convert zero or more PARAMVALUE elements into dictionary
@@ -2332,6 +2340,10 @@ class WBEMConnection:  # pylint: disable=too-many-instance-attributes
         output_params = NocaseDict()
 
         for p in tup_tree:
+            if p[0] == 'RETURNVALUE':
+                raise CIMXMLParseError(
+                    "RETURNVALUE element must be the first child element of "
+                    "METHODRESPONSE", conn_id=self.conn_id)
             if p[1] == 'reference':
                 output_params[p[0]] = p[2]
             else:
